@@ -61,41 +61,23 @@ theorem skipLoop_eq (offset : Int) (cs : List String) (pos : Int) (h : pos < off
         simp only [hne, Bool.false_eq_true, if_false, ih (pos + 1) hlt, hr, hk, List.length_cons,
           Nat.add_le_add_iff_right, List.drop_succ_cons]
 
-/-- `substr` as written is take/drop on the cluster list — except that a zero
-length together with a negative offset behaves like "to the end" -/
+/-- `substr` as written is take/drop on the cluster list -/
 theorem substrClusters_eq (cs : List String) (offset length : Int) :
-    substrClusters cs offset length =
-      substrSpec cs offset (if offset < 0 ∧ length = 0 then -1 else length) := by
+    substrClusters cs offset length = substrSpec cs offset length := by
   unfold substrClusters substrSpec
   simp only [strlenClusters_eq]
-  by_cases hA : offset ≥ 0 ∧ length = 0
-  · obtain ⟨h1, h2⟩ := hA
-    have : ¬ (offset < 0) := by omega
-    simp [h1, h2, this]
+  by_cases hA : length = 0
+  · subst hA; simp
   · simp only [hA, if_false]
-    -- the effective length
-    generalize hL : (if offset < 0 ∧ length = 0 then (-1 : Int) else length) = L
-    have hLneg : L < 0 ↔ (length < 0 ∨ (offset < 0 ∧ length = 0)) := by
-      by_cases hq : offset < 0 ∧ length = 0
-      · simp only [hq, and_self, if_true] at hL; subst hL; omega
-      · simp only [hq, if_false] at hL; subst hL; omega
-    have hLpos : ¬ L < 0 → L = length ∧ 0 < length := by
-      intro hn
-      by_cases hq : offset < 0 ∧ length = 0
-      · simp only [hq, and_self, if_true] at hL; omega
-      · simp only [hq, if_false] at hL; subst hL; omega
     -- the tail common to all branches
     have tail : ∀ sub : List String,
         (if length < 0 then sub else takeLoop length sub 0) =
-          (if L < 0 then sub else sub.take L.toNat) := by
+          (if length < 0 then sub else sub.take length.toNat) := by
       intro sub
-      by_cases hn : L < 0
-      · rcases hLneg.mp hn with h | ⟨_, h0⟩
-        · simp [h, hn]
-        · subst h0; simp [hn, takeLoop_zero]
-      · obtain ⟨he, hp⟩ := hLpos hn
-        have : ¬ length < 0 := by omega
-        simp only [this, if_false, he]
+      by_cases hn : length < 0
+      · simp [hn]
+      · have hp : 0 < length := by omega
+        simp only [hn, if_false]
         rw [takeLoop_eq length sub 0 hp]; simp
     generalize hoff : (if offset < 0 then offset + (cs.length : Int) else offset) = off'
     have hstart : (if offset < 0 then max 0 (offset + (cs.length : Int)) else offset).toNat = off'.toNat := by
